@@ -143,6 +143,42 @@ def mon_c10(k, domain, server_ips, bind_port=None, ns_ip=None, wildcard=False, p
             if want is not None and (len(ans) != 1 or ans[0]["type"] != proto.T_A or ans[0]["rdata"] != want):
                 viol.append(("C10:aux-a", "A query for %s.<domain> not answered with the expected address record" % ql[0].decode(),
                              {"time_us": ev[0], "datagram": d.hex()[:800]}))
+    # auxiliary queries are answered at all: A for www.<domain> always (127.0.0.1), A for ns.<domain> and NS whenever the server
+    # knows an IPv4 address to give (-n, or the query arrived over IPv4).  Judged only for queries the server had a second to
+    # answer, while it was alive, and only when no send of the server failed (injected).
+    srv_p = k.procs.get("srv")
+    srv_failed_send = any(e[1] == "send_error" and e[2] == "srv" for e in k.log)
+    if srv_p is not None and srv_p.alive() and not srv_failed_send and (procs is None or "srv" in procs):
+        t_recv = {}
+        for ev in k.log:
+            if ev[1] == "recv" and ev[2] == "srv":
+                t_recv[(ev[3]["src"], bytes(ev[3]["data"])[:2])] = ev[0]          # (the latest copy)
+        for (src, key), left in unanswered.items():
+            if key[3] != 1:
+                continue
+            ql = [l.lower() for l in key[1]]
+            under = len(ql) >= len(dl) and ql[len(ql) - len(dl):] == dl and (not wildcard or len(ql) > len(dl))
+            if not under:
+                continue
+            v4 = ":" not in seen[src][key][0]
+            due = None
+            if key[2] == proto.T_A and len(ql) == len(dl) + (1 if wildcard else 0) + 1 and ql[0] == b"www":
+                due = "A www.<domain>"
+            elif key[2] == proto.T_A and len(ql) == len(dl) + (1 if wildcard else 0) + 1 and ql[0] == b"ns" and (ns_ip or v4):
+                due = "A ns.<domain>"
+            elif key[2] == proto.T_NS and (ns_ip or v4):
+                due = "NS"
+            if due is None:
+                continue
+            t0 = t_recv.get((src, struct.pack(">H", key[0])))
+            if t0 is None or t0 > k.now - 1000000:
+                continue
+            stats["c10_aux_due_checked"] = stats.get("c10_aux_due_checked", 0) + 1
+            if left <= 0:
+                continue
+            viol.append(("C10:aux-unanswered:%s:%s" % (due.split()[0] + "-" + due.split()[-1].split(".")[0] if " " in due else due, "v4" if v4 else "v6"),
+                         "%s query %r (id %d) from %s received over %s was never answered" % (due, b".".join(key[1])[:60], key[0], src, "IPv4" if v4 else "IPv6"),
+                         {"time_us": t0}))
     stats["c10_shapes"] = len(shapes)
     return viol, stats, shapes
 
